@@ -737,6 +737,11 @@ func (d *urlValuesDecoder) DecodeObject(param string, sm *openapi3.Serialization
 		found = true
 	}
 
+	if !found && len(val) == 0 {
+		// none of the object's members was sent (the keys of the query belong to other parameters): the parameter is absent
+		return nil, false, nil
+	}
+
 	return val, found, nil
 }
 
